@@ -1643,3 +1643,61 @@ pub fn run_plan<const M: usize>(plan: &mut Plan, gen: Option<(Profile, usize)>, 
     ex.out.trace.push_str("END\n");
     ex.out
 }
+
+
+/// Two arenas of the same MIN_ALIGN driven by one thread in a random interleaving; each arena's
+/// trace is written as its own PLAN block so that the model (fed only that arena's history)
+/// checks it in isolation.
+pub fn run_pair<const M: usize>(p1: &mut Plan, p2: &mut Plan, prof: Profile, n_ops: usize, static_addr: usize, fo: usize) -> (Out, Out) {
+    galloc::set_fault(p1.fault);
+    galloc::set_shape(p1.shape);
+    let mut e1 = Exec::<M>::new(p1, static_addr, fo);
+    let mut e2 = Exec::<M>::new(p2, static_addr, fo);
+    types::DROPS.with(|d| d.borrow_mut().reserve(8192));
+    e1.out.trace.push_str(&p1.header(static_addr));
+    e1.out.trace.push('\n');
+    e2.out.trace.push_str(&p2.header(static_addr));
+    e2.out.trace.push('\n');
+    crate::begin_plan(&format!("{} # interleaved with plan {}", p1.header(static_addr), p2.idx));
+    let mut r1 = Rng::new(p1.seed);
+    let mut r2 = Rng::new(p2.seed);
+    let mut sched = Rng::new(p1.seed ^ p2.seed ^ 0x5EED);
+    let f1 = gen_first(&mut r1, prof);
+    e1.run_op(&f1);
+    p1.ops.push(f1);
+    let f2 = gen_first(&mut r2, prof);
+    e2.run_op(&f2);
+    p2.ops.push(f2);
+    let (mut n1, mut n2) = (0usize, 0usize);
+    while n1 < n_ops || n2 < n_ops {
+        let pick1 = if n1 >= n_ops { false } else if n2 >= n_ops { true } else { sched.chance(1, 2) };
+        // bursts make the interleaving less regular
+        let burst = sched.range(1, 4) as usize;
+        for _ in 0..burst {
+            if pick1 && n1 < n_ops {
+                let op = if e1.bump.is_none() { Op::New { cap: r1.pick(&[0usize, 0, 100, 1000]), f: true } } else { gen_op(&mut r1, prof, M, None, &e1.gen_ctx()) };
+                crate::set_current(p1.idx, e1.op_idx, &op);
+                e1.run_op(&op);
+                p1.ops.push(op);
+                n1 += 1;
+            } else if !pick1 && n2 < n_ops {
+                let op = if e2.bump.is_none() { Op::New { cap: r2.pick(&[0usize, 0, 100, 1000]), f: true } } else { gen_op(&mut r2, prof, M, None, &e2.gen_ctx()) };
+                crate::set_current(p2.idx, e2.op_idx, &op);
+                e2.run_op(&op);
+                p2.ops.push(op);
+                n2 += 1;
+            }
+        }
+    }
+    for (e, p) in [(&mut e1, &mut *p1), (&mut e2, &mut *p2)] {
+        if e.bump.is_some() {
+            let op = Op::Drop;
+            e.run_op(&op);
+            p.ops.push(op);
+        }
+        e.out.trace.push_str("END\n");
+    }
+    galloc::set_fault(Fault::None);
+    galloc::set_shape(false);
+    (e1.out, e2.out)
+}
